@@ -46,6 +46,7 @@ fn case_src(p: &Prog, idx: usize) -> CaseSrc {
         code: render::case_fn(p, idx),
         table: format!("        Case {{ idx: {}, desc: \"{}\", f: {} }},\n", idx, render::escape_str(&p.to_json().to_string()), f),
         ref_from: None,
+        ctl_from: None,
     }
 }
 
